@@ -465,23 +465,36 @@ def case_uc(ctx, c, classes):
     if ncand == 0:
         return
     k = int(g.integers(1, min(ncand, 6) + 1))
+    userx = g.random() < 0.5
+    fn_ = "from_pgmat_gpmod_xmap" if userx else "from_pgmat_gpmod"
     try:
-        prob = classes[cname].from_pgmat_gpmod(nparent=nparent, ncross=1, nprogeny=10, nself=nself, upper_percentile=pct, vmatfcty=fcty,
-                                               gmapfn=HaldaneMapFunction(), unique_parents=unique, pgmat=pg, gpmod=mod, **common(enc, ncand, k, t))
+        if userx:
+            # the caller's own cross map: a subset of the candidate crosses, rows in any order, parents within a row in any order
+            # (a three-/four-way cross is not symmetric in its parent positions)
+            keep = g.permutation(ncand)[: int(g.integers(1, ncand + 1))]
+            xmap = numpy.array([g.permutation(xmap[i]) for i in keep], dtype="int64").reshape(len(keep), nparent)
+            ncand = len(xmap); k = min(k, ncand)
+            prob = classes[cname].from_pgmat_gpmod_xmap(nparent=nparent, ncross=1, nprogeny=10, nself=nself, upper_percentile=pct, vmatfcty=fcty,
+                                                        gmapfn=HaldaneMapFunction(), unique_parents=unique, pgmat=pg, gpmod=mod, xmap=xmap, **common(enc, ncand, k, t))
+        else:
+            prob = classes[cname].from_pgmat_gpmod(nparent=nparent, ncross=1, nprogeny=10, nself=nself, upper_percentile=pct, vmatfcty=fcty,
+                                                   gmapfn=HaldaneMapFunction(), unique_parents=unique, pgmat=pg, gpmod=mod, **common(enc, ncand, k, t))
     except Exception as e:
-        ctx.raised(cname + ".from_pgmat_gpmod", e); return
+        ctx.raised(cname + "." + fn_, e); return
     gebv = pg.mat.sum(0).astype(float) @ u + beta[0]
     inten = float(stats.norm.pdf(stats.norm.ppf(1.0 - pct)) / pct)
     lib_xmap = numpy.asarray(prob.decn_space_xmap)
     okmap = lib_xmap.ndim == 2 and sorted(map(tuple, lib_xmap.tolist())) == sorted(map(tuple, xmap.tolist()))   # same candidate crosses, any order
+    if userx:
+        okmap = numpy.array_equal(lib_xmap, xmap)       # a cross map supplied by the caller is used as given
     if not okmap:
         lib_xmap = xmap
     exp = numpy.array([numpy.asarray(epgc) @ gebv[list(row)] + inten * numpy.sqrt(numpy.maximum(vm.mat[tuple(row)], 0.0)) for row in lib_xmap])
     got = numpy.asarray(prob.ucmat, dtype=float)
     ctx.case("factory:%s.from_pgmat_gpmod" % cname, cname, pg.mat, u, nself, pct, unique)
-    ctx.check("C05.factory", okmap and near(got, exp)[0], cname + ".from_pgmat_gpmod",
+    ctx.check("C05.factory", okmap and near(got, exp)[0], cname + "." + fn_,
               "usefulness criterion == contribution-weighted parental mean + intensity x sqrt(progeny variance) through the cross map",
-              "%d-way cross" % nparent, witness={"class": cname, "nparent": nparent, "xmap": xmap, "got": got, "expected": exp}, coords=[c, "uc"])
+              "%d-way cross%s" % (nparent, ", caller's own cross map" if userx else ""), witness={"class": cname, "nparent": nparent, "xmap": xmap, "got": got, "expected": exp}, coords=[c, "uc"])
 
 
 def case_embv(ctx, c, classes):
